@@ -1,4 +1,16 @@
 TEXT = {
+ "C07": {
+  "text": "Theorems for EVERY scalar type (hence for the Float program that is bit-compared with the Rust code): the policy layer (all 15 policies, every validity pattern, every parameter value, every environment) returns Ok given that Dhuhr is present, get_hours always reports Dhuhr, the interval pass never unwraps an invalid time (flag read re-extracted from ext_lat.rs), and prayer_times_dt returns its 7-field record whenever the hour->time conversions succeed; over R (Thm/C11 hourToTime_ok) every conversion of an hour >= -2.4e6 succeeds (h<24, m<60, s<60, wrap loop terminates). Correspondence on extlat (exhaustive 2^6 patterns x 15 policies x interval configs), adj, imsaak, h2t, ptdt, raw; falsifier with catch_unwind + watchdog.",
+  "design_ref": "DESIGN.md §7 C07",
+  "note": "Parameter sets with missing HashMap keys are outside the quantifier; non-finite float hours (e.g. -inf entering the wrap loop) are not covered by a theorem, only by the watchdog; bounded time is proved as fuel sufficiency over R, not as wall-clock.",
+  "technique": "Lean 4 theorems generic in the scalar type (case analysis over policies/Option patterns) + translator + exhaustive-pattern differential correspondence",
+ },
+ "C08": {
+  "text": "Theorems for EVERY scalar type: (1) the 12 policies restricted to Fajr/Isha leave Shurooq, Dhuhr, Asr, Maghrib exactly as computed (value and flag); (2) the six only-if-invalid policies return a valid angle-based Fajr/Isha exactly as the conventional result does and are the identity when all six hours exist; (3) in every result (15 policies) an unflagged entry equals the conventional entry, i.e. a replaced entry is flagged. The full-strength reading of (2) is proved FALSE with a generic witness (interval-defined Isha flagged extreme) - a known finding replayed on the code. Dispatch table, always-list and interval exclusions are regenerated from ext_lat.rs on every run.",
+  "design_ref": "DESIGN.md §7 C08, §8",
+  "note": "(3) assumes, for NearestLatitudeAllPrayersAlways with an interval method, that the substitute latitude has a Fajr/Isha; the interval-consuming policies are quantified over angle-based methods as the property states. One open known finding (flag of interval-defined times).",
+  "technique": "Lean 4 theorems generic in the scalar type + translator + exhaustive-pattern differential correspondence",
+ },
  "C14": {
   "text": "Theorems over Int (all start/end/k, no bound): numDays = max(0,end-start+1); the dates visited are exactly start..=end once each in order; partition of a non-empty range is a list of non-empty contiguous sub-ranges covering it exactly; at most max(k,1) parts; empty range with k>=2 gives no part. The model's num_days/partition bodies are tied to date.rs by the translator (shape check + clamp flag) and by bit-level correspondence on (start,end,k) grids; the range API is compared with the single-date API by the falsifier.",
   "design_ref": "DESIGN.md §7 C14",
